@@ -122,6 +122,18 @@ std::vector<std::vector<double>> Compute_Gauss_Legendre_Roots_and_Weights(unsign
 			if(std::fabs(z - z1) <= eps)
 				break;
 		}
+		// The weight needs P_n'(z) at the converged root: re-evaluate the recurrence there instead of keeping the derivative at the previous iterate.
+		{
+			double p1 = 1.0;
+			double p2 = 0.0;
+			for(unsigned int j = 0; j < n; j++)
+			{
+				double p3 = p2;
+				p2		  = p1;
+				p1		  = ((2.0 * j + 1.0) * z * p2 - j * p3) / (j + 1.0);
+			}
+			pp = n * (z * p1 - p2) / (z * z - 1.0);
+		}
 		roots_and_weights[i][0]			= x_middle - x_half_width * z;
 		roots_and_weights[n - i - 1][0] = x_middle + x_half_width * z;
 		roots_and_weights[i][1]			= 2.0 * x_half_width / ((1.0 - z * z) * pp * pp);
